@@ -219,6 +219,10 @@ Boolean Double_2_ieee2(Double inp, Byte* pDest, Boolean NeedsBig) {
             if (Mantissa & 0x00000001ul) {
                 pDest[0 ^ !!NeedsBig] |= 0x01;
             }
+            /* a NaN whose payload has neither of these bits set must not become infinity */
+            if ((Mantissa || Fraction) && !(Mantissa & 0x08000001ul)) {
+                pDest[1 ^ !!NeedsBig] |= 0x02;
+            }
         }
         return True;
     }
